@@ -14,6 +14,7 @@ mod idrules;
 mod layout;
 mod master;
 mod proto;
+mod quaketext;
 mod settings;
 mod template;
 mod valve;
@@ -394,6 +395,7 @@ fn run(cmd: &str, args: &[String], seed: u64, rep: &mut Report) {
             };
             c07x::replay(&ctx, &read_ndjson(arg(&args, "--in").unwrap()), seed, arg_u64(&args, "--reps", 50) as usize, &mut rep);
         }
+        "quaketext" => quaketext::replay(&read_ndjson(arg(&args, "--in").unwrap()), &mut rep),
         "exchange-trace" => {
             let ctx = exchange::Ctx {
                 layouts: layout::LayoutSet::load(arg(&args, "--layouts").unwrap()),
